@@ -14,6 +14,7 @@ import (
 //	stop    : stop request (+ kill escalation), obeying / ignoring processes, repeat (C05)
 //	timeout : DAG timeout                (C05)
 //	dry     : dry run                    (C03)
+//	replimit: repeating leaves with continueOn.failure under a limit, ended by a stop (C15 C08)
 //	listener: retries + continueOn.failure + done listener (free-running: slow listener) (C01 C02 C03)
 func GenScenario(family string, id int, rng *rand.Rand) Scenario {
 	n := 1 + rng.Intn(5)
@@ -82,6 +83,26 @@ func GenScenario(family string, id int, rng *rand.Rand) Scenario {
 		}
 		if rng.Intn(3) == 0 {
 			withHandlers()
+		}
+	case "replimit":
+		// a repeating leaf (it may fail an iteration and go on: continueOn.failure) next to ordinary steps under a limit;
+		// the run is ended by a stop request (C15 with repeat, C08 labels)
+		sc.Stop = true
+		sc.MaxActive = 1 + rng.Intn(2)
+		for i := 0; i < n; i++ {
+			sc.PCond[i] = "none"
+			if rng.Intn(2) == 0 {
+				sc.Deps[i] = []int{}
+			}
+		}
+		for i := 0; i < n; i++ {
+			if isLeaf(sc.Deps, i+1) && (rng.Intn(2) == 0 || i == 0) {
+				sc.Repeat[i] = true
+				sc.RLimit[i] = 0
+				sc.ContF[i] = rng.Intn(3) > 0
+				sc.FailK[i] = []int{0, 1, 1, 2, 99}[rng.Intn(5)]
+				sc.Obeys[i] = rng.Intn(2) == 0
+			}
 		}
 	case "listener":
 		// retried, failure-tolerant steps with dependents next to independent steps, always with a done listener
